@@ -223,13 +223,17 @@ impl Prop for C11 {
                 st.packets += 2;
             }
         }
+        // the harness's own bookkeeping is allocated before the baseline is taken, so that it never
+        // shows up as memory "retained by the analyzer" (a thorough run tripped over a Vec doubling at
+        // 65536 samples)
+        let total_segs: usize = s.conns.iter().map(|c| c.n_segs).sum();
+        let mut allocs: Vec<Vec<u64>> = s.conns.iter().map(|c| Vec::with_capacity(c.n_segs + 1)).collect();
+        let mut lives: Vec<i64> = Vec::with_capacity(total_segs + 1);
         let base = alloc::snap();
         let live0 = base.live();
         let n_conn = s.conns.len() as i64;
         let live_bound = n_conn.min(s.cap.max(1) as i64).max(1) * L_PER_CONN + SLACK;
         let mut next = vec![0usize; s.conns.len()];
-        let mut allocs: Vec<Vec<u64>> = vec![vec![]; s.conns.len()];
-        let mut lives: Vec<i64> = vec![];
         let mut fingerprinted = vec![false; s.conns.len()];
         let mut delivered = 0usize;
         let mut live_max: i64 = 0;
